@@ -1,8 +1,11 @@
 (* Props/C02.v — wall-clock construction is normalised by the documented DST rules.
-   Models: Spec/Zone.v (zoneinfo's view of a tz-database zone), Model/TzConvert.v (Timezone.convert, DateTime.create).
+   Models: Spec/Zone.v (zoneinfo's view of a tz-database zone), Model/TzConvert.v (Timezone.convert, DateTime.create),
+   Model/WallHistory.v (a construction after a history: set/on/at/replace read the fold the earlier steps left on the instance).
    Every theorem holds for EVERY well-formed zone table and every wall value (no bound on instants or zones). *)
-From Coq Require Import ZArith Bool.
-From PV Require Import Lib.PyBase Spec.Cal Spec.Zone Proofs.ZoneFacts Proofs.ZoneWindow Proofs.ZoneGap Model.TzConvert Proofs.C02Facts.
+From Coq Require Import ZArith Bool List.
+From PV Require Import Lib.PyBase Spec.Cal Spec.Zone Proofs.ZoneFacts Proofs.ZoneWindow Proofs.ZoneGap Model.TzConvert Proofs.C02Facts
+  Model.WallHistory Proofs.C02History.
+Import ListNotations.
 Open Scope Z_scope.
 
 (* PEP 495: every wall second is exactly one of unique / repeated (two instants, fold tells them apart) / skipped (no instant) *)
@@ -87,3 +90,109 @@ Theorem gap_length_is_exact : forall z w, wf_zone z = true -> wall_skipped z w -
     ~ wall_skipped z (a + g) /\ ~ wall_skipped z (a - 1).
 Proof. exact gap_is_interval. Qed.
 Print Assumptions gap_length_is_exact.
+
+(* ---------------------------------------------------------------------------------------------------------------------------------------
+   A construction AFTER A HISTORY (Model/WallHistory.v).  set()/on()/at()/replace() read the fold of the instance; hfinal st ops is the
+   value after the operations ops.  "Transparent" = the result is the direct construction with the fold that was asked for. *)
+
+(* built in a named zone where the wall time exists (once or twice), then read in another zone with set(tz=)/replace(tzinfo=) *)
+Theorem history_named_zone_transparent : forall z1 z2 fx2 W f st, ~ wall_skipped z1 (sec W) ->
+  hfinal st [OCreate z1 false W f false; OSetTz z2 fx2] = hfinal st [OCreate z2 fx2 W f false].
+Proof. exact named_zone_transparent. Qed.
+Print Assumptions history_named_zone_transparent.
+
+(* UTC, or any named zone without transitions: unconditionally, whatever raise_on_unknown_times was *)
+Theorem history_utc_transparent : forall o z2 fx2 W f r st,
+  hfinal st [OCreate (fixed_zone o) false W f r; OSetTz z2 fx2] = hfinal st [OCreate z2 fx2 W f false].
+Proof. exact utc_transparent. Qed.
+Print Assumptions history_utc_transparent.
+
+(* other fields in the same zone: set(y, .., us) / on() / at() / replace(year=..) *)
+Theorem history_set_wall_transparent : forall z W W' f st, ~ wall_skipped z (sec W) ->
+  hfinal st [OCreate z false W f false; OSetWall W'] = hfinal st [OCreate z false W' f false].
+Proof. exact set_wall_transparent. Qed.
+Print Assumptions history_set_wall_transparent.
+
+Theorem history_two_hops_transparent : forall z1 z2 W0 W f st, ~ wall_skipped z1 (sec W0) -> ~ wall_skipped z2 (sec W0) ->
+  hfinal st [OCreate z1 false W0 f false; OSetTz z2 false; OSetWall W] = hfinal st [OCreate z2 false W f false].
+Proof. exact two_hops_transparent. Qed.
+Print Assumptions history_two_hops_transparent.
+
+(* replace(fold=f') is an explicit request and decides; replace(tzinfo=None) keeps the fold *)
+Theorem history_set_fold_decides : forall z1 z2 fx2 W f f' st, ~ wall_skipped z1 (sec W) ->
+  hfinal st [OCreate z1 false W f false; OSetFold f'; OSetTz z2 fx2] = hfinal st [OCreate z2 fx2 W f' false].
+Proof. exact set_fold_decides. Qed.
+Print Assumptions history_set_fold_decides.
+
+Theorem history_replace_no_tz_transparent : forall z2 fx2 st,
+  hfinal st [OReplaceNoTz; OSetTz z2 fx2] = hfinal st [OSetTz z2 fx2].
+Proof. exact replace_no_tz_transparent. Qed.
+Print Assumptions history_replace_no_tz_transparent.
+
+(* a value that had to be moved out of a gap is an ordinary time carrying fold 0 (construct_skipped): that fold decides afterwards *)
+Theorem history_after_shift_fold0 : forall z1 z2 fx2 W (f : bool) st, wf2_zone z1 = true -> wall_skipped z1 (sec W) ->
+  let g := off_local z1 (sec W) true - off_local z1 (sec W) false in
+  let W1 := if f then W + MEG * g else W - MEG * g in
+  wall_in_range W1 = true ->
+  hfinal st [OCreate z1 false W f false; OSetTz z2 fx2] = hfinal st [OCreate z2 fx2 W1 false false].
+Proof. exact after_shift_fold0. Qed.
+Print Assumptions history_after_shift_fold0.
+
+(* FixedTimezone.convert forces fold 0 (finding fixed-offset-drops-fold): what follows is the fold-0 reading whatever was asked for;
+   with the default fold 1 a repeated wall time denotes the EARLIER instant and a skipped one moves BACKWARD *)
+Theorem history_fixed_offset_is_fold0_reading : forall z1 z2 fx2 W f r st,
+  hfinal st [OCreate z1 true W f r; OSetTz z2 fx2] = hfinal st [OCreate z2 fx2 W false false].
+Proof. exact fixed_offset_is_fold0_reading. Qed.
+Print Assumptions history_fixed_offset_is_fold0_reading.
+
+Theorem history_fixed_offset_transparent_refuted :
+  exists z1 z2 W s1 s2, wf2_zone z2 = true /\ wall_repeated z2 (sec W) /\
+    hfinal hinit [OCreate z1 true W true false; OSetTz z2 false] = Ok s1 /\
+    hfinal hinit [OCreate z2 false W true false] = Ok s2 /\
+    inst z2 (h_W s1) (h_f s1) + 3600 * MEG = inst z2 (h_W s2) (h_f s2).
+Proof. exact fixed_offset_refuted. Qed.
+Print Assumptions history_fixed_offset_transparent_refuted.
+
+Theorem history_fixed_offset_skipped_refuted :
+  exists z1 z2 W s1 s2, wf2_zone z2 = true /\ wall_skipped z2 (sec W) /\
+    hfinal hinit [OCreate z1 true W true false; OSetTz z2 false] = Ok s1 /\
+    hfinal hinit [OCreate z2 false W true false] = Ok s2 /\
+    h_W s1 = W - 3600 * MEG /\ h_W s2 = W + 3600 * MEG.
+Proof. exact fixed_offset_skipped_refuted. Qed.
+Print Assumptions history_fixed_offset_skipped_refuted.
+
+(* region where the loss does not show: the wall time exists once in the target zone (same fields, same zone, same instant; only the
+   attribute fold differs).  With f = false history_fixed_offset_is_fold0_reading is already the direct construction. *)
+Theorem history_fixed_offset_transparent_partial : forall z1 z2 W f r st, wall_unique z2 (sec W) ->
+  exists s1 s2, hfinal st [OCreate z1 true W f r; OSetTz z2 false] = Ok s1 /\ hfinal st [OCreate z2 false W f false] = Ok s2 /\
+    h_W s1 = h_W s2 /\ h_tz s1 = h_tz s2 /\ inst z2 (h_W s1) (h_f s1) = inst z2 (h_W s2) (h_f s2).
+Proof. exact fixed_offset_partial. Qed.
+Print Assumptions history_fixed_offset_transparent_partial.
+
+(* DateTime.naive() does not forward the fold (finding naive-method-drops-fold) *)
+Theorem history_naive_method_is_fold0_reading : forall z2 fx2 st,
+  hfinal st [ODropTz; OSetTz z2 fx2] = hfinal (mkhst None (h_W st) false) [OSetTz z2 fx2].
+Proof. exact naive_method_is_fold0_reading. Qed.
+Print Assumptions history_naive_method_is_fold0_reading.
+
+Theorem history_naive_method_transparent_refuted :
+  exists z2 W s1 s2, wf2_zone z2 = true /\ wall_repeated z2 (sec W) /\
+    hfinal hinit [OCreate (fixed_zone 0) false W true false; ODropTz; OSetTz z2 false] = Ok s1 /\
+    hfinal hinit [OCreate (fixed_zone 0) false W true false; OReplaceNoTz; OSetTz z2 false] = Ok s2 /\
+    hfinal hinit [OCreate z2 false W true false] = Ok s2 /\
+    inst z2 (h_W s1) (h_f s1) + 3600 * MEG = inst z2 (h_W s2) (h_f s2).
+Proof. exact naive_method_refuted. Qed.
+Print Assumptions history_naive_method_transparent_refuted.
+
+Theorem history_naive_method_transparent_partial : forall z1 z2 W f st, ~ wall_skipped z1 (sec W) -> wall_unique z2 (sec W) ->
+  exists s1 s2, hfinal st [OCreate z1 false W f false; ODropTz; OSetTz z2 false] = Ok s1 /\ hfinal st [OCreate z2 false W f false] = Ok s2 /\
+    h_W s1 = h_W s2 /\ h_tz s1 = h_tz s2 /\ inst z2 (h_W s1) (h_f s1) = inst z2 (h_W s2) (h_f s2).
+Proof. exact naive_method_partial. Qed.
+Print Assumptions history_naive_method_transparent_partial.
+
+(* the hypotheses above are satisfiable together *)
+Theorem history_hypotheses_nonvacuous :
+  ~ wall_skipped (fixed_zone 0) (sec W_rep) /\ wall_repeated paris13 (sec W_rep) /\ wall_skipped paris13 (sec W_skip) /\
+  wall_unique paris13 (sec (W_rep + 7200 * MEG)) /\ wf2_zone paris13 = true.
+Proof. exact history_hypotheses_satisfiable. Qed.
+Print Assumptions history_hypotheses_nonvacuous.
